@@ -145,15 +145,34 @@ def simple_assign(rng, p, v, arrays=None, scal=0.2):
     return f"{rng.choice(arrays)}({sub()}) = {rhs}"
 
 
+def fmt_header(v, lo, hi, st):
+    return f"do {v} = {lo}, {hi}" + ("" if st == 1 else f", {st}")
+
+
+def vary_header(rng, v, parts):
+    """a header that differs from `parts` in exactly one component (or in all of them)"""
+    lo, hi, st = parts
+    x = rng.random()
+    if x < 0.4:
+        hi = str(int(hi) + rng.choice([-2, -1, 1, 2])) if hi.lstrip("-").isdigit() else rng.choice(["6", "s0"])
+    elif x < 0.65:
+        lo = str(int(lo) + rng.choice([-1, 1, 2])) if lo.lstrip("-").isdigit() else rng.choice(["1", "s1"])
+    elif x < 0.85:
+        st = rng.choice([c for c in ([1, 2, 3] if st > 0 else [-1, -2, -3]) if c != st])
+    else:
+        return header(rng, v)[0]
+    return fmt_header(v, lo, hi, st)
+
+
 def gen_fuse(rng):
     p = make_prog(rng, with_m=False)
-    hdr, _ = header(rng, "i", allow_scalar=(rng.random() < 0.3))
+    _, parts = header(rng, "i", allow_scalar=(rng.random() < 0.3))
     v2 = "i" if rng.random() < 0.75 else "j"
     n = 2 if rng.random() < 0.7 else 3
     body = []
     for k in range(n):
         v = "i" if k != 1 else v2
-        h = hdr.replace("do i", f"do {v}") if rng.random() < 0.85 else header(rng, v)[0]
+        h = fmt_header(v, *parts) if (k == 0 or rng.random() < 0.8) else vary_header(rng, v, parts)
         body.append("  " + h)
         for _ in range(rng.randint(1, 2)):
             if rng.random() < 0.12:
